@@ -33,6 +33,31 @@ def result_leaves(cx, f):
             return
         if k == 'Return':
             return      # recorded through its exit event
+        def let_init(x):
+            """the initialiser of an immutable, never re-assigned `let v = match/if/{..}` that `x` names, else None"""
+            if x['k'] != 'Path' or len(x['path']['segs']) != 1:
+                return None
+            ev0 = by_node.get(id(x)) or ctx_hint
+            sc = getattr(ev0, 'scope', None) or fw.root
+            tmx = cx.gm.terms_of(fw)
+            sc2 = tmx.scope_of_node(x) or sc
+            d = sc2.lookup(x['path']['s']) if sc2 is not None else None
+            if d is None:
+                cands = [d_ for d_ in fw.defs if d_.name == x['path']['s']]
+                d = cands[0] if len(cands) == 1 else None
+            if d is None or d.kind != 'let' or d.mutable or d.assigns or d.init is None or d.init['k'] not in ('Match', 'If', 'Block') or getattr(d, 'twins', None):
+                return None
+            return d.init
+        li = let_init(e)
+        if li is not None:
+            tails(li, ctx_hint)
+            return
+        if k == 'Call' and e['func']['k'] == 'Path' and e['func']['path']['s'] == 'Ok' and len(e['args']) == 1 and let_init(e['args'][0]) is not None:
+            n0 = len(out)
+            tails(let_init(e['args'][0]), ctx_hint)
+            for i_ in range(n0, len(out)):
+                out[i_] = out[i_][:2] + ('ok-wrapped',) + out[i_][3:]
+            return
         if k == 'Call' and e['func']['k'] == 'Path' and e['func']['path']['s'] == 'Ok' and len(e['args']) == 1 and e['args'][0]['k'] in ('Match', 'If', 'Block'):
             n0 = len(out)
             tails(e['args'][0], ctx_hint)
